@@ -9,6 +9,7 @@ import (
 	"strings"
 	"time"
 
+	"github.com/FollowTheProcess/spok/cli/app"
 	"github.com/FollowTheProcess/spok/file"
 	"github.com/FollowTheProcess/spok/iostream"
 	"github.com/FollowTheProcess/spok/parser"
@@ -136,6 +137,8 @@ func main() {
 		fails = c17()
 	case "C05":
 		fails = c05()
+	case "C12":
+		fails = c12()
 	}
 	for _, f := range fails {
 		fmt.Println("FAILING-CASE", f)
@@ -245,5 +248,143 @@ func c05() []string {
 		os.RemoveAll(base)
 	}
 	fmt.Printf("SEARCH prop=C05 cases=%d failures=%d\n", total, len(fails))
+	return fails
+}
+
+// ---- C12: --clean removes exactly the declared outputs and the cache, never the project ----
+
+func snapshotTree(root string) map[string]string {
+	out := map[string]string{}
+	filepath.Walk(root, func(p string, info os.FileInfo, err error) error {
+		if err != nil {
+			return nil
+		}
+		rel, _ := filepath.Rel(root, p)
+		if info.IsDir() {
+			out[rel] = "<dir>"
+		} else {
+			b, _ := os.ReadFile(p)
+			out[rel] = string(b)
+		}
+		return nil
+	})
+	return out
+}
+
+func c12() []string {
+	type outSpec struct {
+		decl  string   // text after "->" in the task header
+		vars  string   // variable definitions needed
+		paths []string // relative paths designated (files or dirs), "<unsafe>" if it designates the project dir or above
+	}
+	specs := []outSpec{
+		{`"out.txt"`, "", []string{"out.txt"}},
+		{`"build"`, "", []string{"build"}},
+		{`"missing.bin"`, "", []string{"missing.bin"}},
+		{`"*.o"`, "", []string{"a.o", "b.o"}},
+		{`"sub/*.o"`, "", []string{"sub/c.o"}},
+		{`BIN`, "BIN := \"named.txt\"\n", []string{"named.txt"}},
+		{`""`, "", []string{"<unsafe>"}},
+		{`"."`, "", []string{"<unsafe>"}},
+		{`EMPTY`, "EMPTY := \"\"\n", []string{"<unsafe>"}},
+		{`"build/.."`, "", []string{"<unsafe>"}},
+		{`"*"`, "", []string{"<unsafe>"}}, // matches the spokfile itself
+	}
+	var fails []string
+	total := 0
+	cwd0, _ := os.Getwd()
+	defer os.Chdir(cwd0)
+	for i := 0; i < len(specs); i++ {
+		for j := i; j < len(specs); j++ {
+			for _, withCleanTask := range []bool{false, true} {
+				total++
+				base, _ := os.MkdirTemp("", "fsprobe-")
+				base, _ = filepath.EvalSymlinks(base)
+				proj := filepath.Join(base, "home", "proj")
+				os.MkdirAll(filepath.Join(proj, "sub"), 0o755)
+				os.MkdirAll(filepath.Join(proj, "build", "deep"), 0o755)
+				os.MkdirAll(filepath.Join(proj, ".spok"), 0o755)
+				for _, f := range []string{"out.txt", "keep.txt", "a.o", "b.o", "sub/c.o", "sub/keep.c", "named.txt", "build/deep/x", ".spok/cache.json", ".hidden.o"} {
+					os.WriteFile(filepath.Join(proj, f), []byte("data:"+f), 0o644)
+				}
+				os.WriteFile(filepath.Join(base, "home", "outside.txt"), []byte("outside"), 0o644)
+				use := []outSpec{specs[i]}
+				if j != i {
+					use = append(use, specs[j])
+				}
+				text := ""
+				for _, u := range use {
+					text += u.vars
+				}
+				for k, u := range use {
+					text += fmt.Sprintf("task t%c() -> %s {\n echo hi\n}\n", rune(97+k), u.decl)
+				}
+				if withCleanTask {
+					text += "task clean() {\n echo cleaning\n}\n"
+				}
+				os.WriteFile(filepath.Join(proj, "spokfile"), []byte(text), 0o644)
+				os.Setenv("HOME", filepath.Join(base, "home"))
+				os.Chdir(proj)
+				before := snapshotTree(base)
+				a := app.New(iostream.Null())
+				a.Options.Spokfile = filepath.Join(proj, "spokfile")
+				a.Options.Clean = true
+				err := a.Run(nil)
+				after := snapshotTree(base)
+				os.Chdir(cwd0)
+				// expectation
+				want := map[string]bool{}
+				unsafe := false
+				for _, u := range use {
+					for _, p := range u.paths {
+						if p == "<unsafe>" {
+							unsafe = true
+						} else {
+							want[filepath.Join("home", "proj", p)] = true
+						}
+					}
+				}
+				want[filepath.Join("home", "proj", ".spok")] = true
+				if withCleanTask || unsafe {
+					want = map[string]bool{}
+				}
+				desc := fmt.Sprintf("spokfile %q", text)
+				if unsafe && !withCleanTask && err == nil {
+					fails = append(fails, desc+": an output designates the project directory (or the spokfile) but --clean reported success")
+				}
+				for p, v := range before {
+					_, still := after[p]
+					gone := !still
+					expectGone := false
+					for w := range want {
+						if p == w || strings.HasPrefix(p, w+"/") {
+							expectGone = true
+						}
+					}
+					if withCleanTask && strings.HasPrefix(p, filepath.Join("home", "proj", ".spok")) {
+						continue // the user's clean task ran through spok: the cache may be (re)written
+					}
+					if gone && !expectGone {
+						fails = append(fails, fmt.Sprintf("%s: --clean removed %s which is not a declared output", desc, p))
+						break
+					}
+					if !gone && expectGone {
+						fails = append(fails, fmt.Sprintf("%s: --clean left %s which is a declared output (err=%v)", desc, p, err))
+						break
+					}
+					if still && after[p] != v && !strings.Contains(p, ".spok") {
+						fails = append(fails, fmt.Sprintf("%s: --clean modified %s", desc, p))
+						break
+					}
+				}
+				os.RemoveAll(base)
+				if len(fails) >= 3 {
+					fmt.Printf("SEARCH prop=C12 cases=%d failures=%d (stopped early)\n", total, len(fails))
+					return fails
+				}
+			}
+		}
+	}
+	fmt.Printf("SEARCH prop=C12 cases=%d failures=%d\n", total, len(fails))
 	return fails
 }
